@@ -42,6 +42,10 @@ func c05Scenarios() []SchedScenario {
 			Threads: [][]VOp{{{K: "setns", DS: "A", N: 1}, {K: "setns", DS: "A", N: 2}}, {b("A", e("e1", "v1")), b("A", e("e2", "r1"))}}},
 		{Name: "S14-create-twice-vs-writer-by-name", Datasets: vDS, IDs: vIDs, MapPoints: true,
 			Threads: [][]VOp{{{K: "create", DS: "C"}, b("C", e("e1", "v1"))}, {{K: "create", DS: "C"}, {K: "getin", DS: "C", Ents: []VEnt{e("e1", "v1")}}}}},
+		// a latest-only feed page (GET changes?latestOnly=true, GetDatasetChanges, LatestOnly job sources) next to a
+		// batch that rewrites two of its entities: the page shows both old or both new versions
+		{Name: "S17-latest-only-page-vs-batch", Datasets: vDS, IDs: vIDs, Pre: []VOp{b("A", e("e1", "v1"), e("e2", "v1"), e("e3", "v1"))},
+			Threads: [][]VOp{{b("A", e("e1", "v2"), e("e2", "v2"))}, {{K: "feedlo", DS: "A"}}}},
 		{Name: "S15-txn-waiting-for-a-lock-vs-batch-on-the-same-entity", Datasets: vDS, IDs: vIDs, Pre: []VOp{b("A", e("e1", "v1")), b("B", e("e1", "v1"))},
 			Threads: [][]VOp{{txn(map[string][]VEnt{"A": {e("e1", "v2r2")}, "B": {e("e1", "r23")}})}, {b("B", e("e1", "s")), {K: "get", Ents: []VEnt{e("e1", "v1")}}}}},
 		// a batch beyond the 16-bit boundary of the in-batch sequence number next to a reader that counts what one
